@@ -326,11 +326,20 @@ def case_hierarchy(W, cfg):
             W.require("hierarchy:sgrid-when-declared", set(g3.axes) == {"X", "Y"}, "%s -> %s" % (conv, list(g3.axes)))
         ds_c, ex_c = comodo_ds({"X": ["center", "left"]}, 3, -0.5)
         for dsx, ex in ((ds_c, ex_c), (ds_s, ex_s)):
-            try:
-                xgcm.Grid(dsx, coords=ex, periodic=False)
-                W.require("hierarchy:coords-conflict-rejected", False, "user coords merged with parsed ones")
-            except ValueError:
-                W.require("hierarchy:coords-conflict-rejected", True)
+            # user coords of any kind together with parsed ones: the same mapping, one parsed axis only, an axis the
+            # metadata does not describe (on an unannotated dimension), or a mix of both
+            dsq = dsx.assign_coords(qdim=("qdim", [0.0, 1.0, 2.0]))
+            first = sorted(ex)[0]
+            user_variants = {"same": ex, "one-parsed-axis": {first: ex[first]}, "disjoint-axis": {"Q2": {"center": "qdim"}},
+                             "overlapping": {first: ex[first], "Q2": {"center": "qdim"}}}
+            for vname, uc in user_variants.items():
+                try:
+                    gm = xgcm.Grid(dsq, coords=uc, periodic=False)
+                    W.require("hierarchy:coords-conflict-rejected", False, "user coords (%s) %s combined with parsed ones into %s" % (vname, uc, {k: dict(v.coords) for k, v in gm.axes.items()}))
+                except ValueError:
+                    W.require("hierarchy:coords-conflict-rejected", True)
+                except Exception as e:  # noqa
+                    W.require("hierarchy:coords-conflict-rejected", False, "user coords (%s): %s instead of ValueError" % (vname, type(e).__name__))
             ga = xgcm.Grid(dsx, coords=ex, periodic=False, autoparse_metadata=False)
             W.require("hierarchy:explicit-only-accepted", set(ga.axes) == set(ex), str(list(ga.axes)))
         # nothing to parse and no coords
